@@ -1,6 +1,6 @@
 (** Dispatch table used by the extracted runner: property number -> model runner / monitor. *)
 From RRE Require Import Base.Sx.
-From RRE Require Model.Watermark Model.Tms Model.ProofGraph Model.Undo Model.Module Model.Window Model.StreamAlpha Model.Join Model.KB Model.Index Model.State Model.ReteAgenda Model.EngineConc Model.Parallel Model.Incremental Model.ExprShape Model.BwExpr Model.BwSmall Model.ForwardSpec Model.Grl Model.Backward.
+From RRE Require Model.Watermark Model.Tms Model.ProofGraph Model.Undo Model.Module Model.Window Model.StreamAlpha Model.Join Model.KB Model.Index Model.State Model.ReteAgenda Model.EngineConc Model.Parallel Model.Incremental Model.ExprShape Model.BwExpr Model.BwSmall Model.ForwardSpec Model.Grl Model.GrlSplit Model.Backward.
 Open Scope Z_scope.
 
 Definition run_by_id (id : Z) (c : sx) : sx :=
@@ -8,7 +8,11 @@ Definition run_by_id (id : Z) (c : sx) : sx :=
   | 1 => ForwardSpec.run_sx c
   | 2 => EngineConc.run_sx c
   | 3 => EngineConc.run_sx c
-  | 4 => Grl.run_sx c
+  | 4 => match c with
+         | L [A 2; t] => match getZs t with Some t => GrlSplit.run_split_args t | None => sx_bad end
+         | L [A 3; t; p] => match getZs t, getZs p with Some t, Some p => GrlSplit.run_find t p | _, _ => sx_bad end
+         | L [A 4; t] => match getZs t with Some t => GrlSplit.run_then t | None => sx_bad end
+         | _ => Grl.run_sx c end
   | 5 => match c with
          | L [A 5; t] => match getZs t with Some t => BwExpr.run_text t | None => sx_bad end
          | L [A 4; t] => match getZs t with Some t => BwExpr.run_query_text t | None => sx_bad end
@@ -44,7 +48,11 @@ Definition ok_by_id (id : Z) (c o : sx) : Z :=
   | 1 => ForwardSpec.ok_sx c o
   | 2 => b2z (EngineConc.ok_sx c o)
   | 3 => b2z (EngineConc.ok_sx c o)
-  | 4 => Grl.ok_sx c o
+  | 4 => match c with
+         | L [A 2; t] => match getZs t with Some t => b2z (sx_eqb (GrlSplit.run_split_args t) o) | None => 0 end
+         | L [A 3; t; p] => match getZs t, getZs p with Some t, Some p => b2z (sx_eqb (GrlSplit.run_find t p) o) | _, _ => 0 end
+         | L [A 4; t] => match getZs t with Some t => b2z (sx_eqb (GrlSplit.run_then t) o) | None => 0 end
+         | _ => Grl.ok_sx c o end
   | 5 => ExprShape.ok_sx c o
   | 6 => b2z (Incremental.ok_sx c o)
   | 7 => b2z (ReteAgenda.ok_sx c o)
